@@ -47,6 +47,21 @@ Example C10_relaxed_publish_races :
   r_pc (s_rd (last tr (sys_init [] (fun _ => []))) 0%nat) = PStuck URace.
 Proof. vm_compute. split; reflexivity. Qed.
 
+(* release on the mask store of erase is needed too (C++20: a later relaxed store by the same thread does not continue
+   a release sequence): after insert 5, insert 6 (same leaf, published by the release mask store of case 3) and an
+   erase 5 whose mask store is relaxed, a reader that is served the erase's mask message gets the pointer to 6's slot
+   without having synchronised with its construction - dereferencing it is a data race.  (ThreadSanitizer does not
+   report this one - it lets the relaxed store inherit the earlier release - so the generated obligation is the leg
+   that rejects a relaxed erase store.) *)
+Example C10_relaxed_erase_store_races_on_deref :
+  orders_sufficient (weaken_e_mask actual) = false /\
+  let tr := run_conc (weaken_e_mask actual) 1 2 [WInsert 5 1; WInsert 6 2; WErase 5] (fun _ => [RFind 6])
+                     (repeat 0 13 ++ [1; 1; 1])%nat (fun _ => 0%nat) in
+  let S1 := last tr (sys_init [] (fun _ => [])) in
+  let f := hd (mk_frec 0 None 0 0 0 None 0 (fun _ => 0%nat)) (r_done (s_rd S1 0%nat)) in
+  w_done (s_w S1) = 3%nat /\ f_res f = Some (0%nat, 6) /\ rna (s_log S1) (f_view f) (LSlot 0 6) = RRace.
+Proof. vm_compute. repeat split; reflexivity. Qed.
+
 (* --- no reader step is undefined behaviour: for every accepted writer history, every number of readers and every
    script, every scheduler, every choice of admissible message at every load.  Moreover, whenever a reader is about
    to dereference a node pointer c it obtained from _root / links[], EVERY write to c's header (prefix, depth) in
